@@ -393,22 +393,38 @@ func (c *Ctx) sortedBeforeScaleDown(r *Reconcile) {
 }
 
 // firstUnhealthyAssignments: the recorded pod is only ever assigned an unhealthy pod.
+// Decided on the state after each statement that assigns the variable (directly, or as
+// one of the results of a helper the engine expands): it is nil or not healthy there.
 func (c *Ctx) firstUnhealthyAssignments(r *Reconcile, fu *ast.Ident) {
 	info := r.FI.Pkg.TypesInfo
 	obj := info.ObjectOf(fu)
 	n := 0
 	ast.Inspect(r.FI.Decl.Body, func(x ast.Node) bool {
 		as, ok := x.(*ast.AssignStmt)
-		if !ok || len(as.Lhs) != 1 || len(as.Rhs) != 1 {
+		if !ok {
 			return true
 		}
-		id, ok := as.Lhs[0].(*ast.Ident)
-		if !ok || info.ObjectOf(id) != obj {
+		var lhs *ast.Ident
+		for _, l := range as.Lhs {
+			if id, ok := l.(*ast.Ident); ok && info.ObjectOf(id) == obj {
+				lhs = id
+			}
+		}
+		if lhs == nil {
 			return true
 		}
 		n++
-		name := fmt.Sprintf("%s: %s = %s", r.FI.Obj.Name(), obj.Name(), types.ExprString(as.Rhs[0]))
-		c.Implies(r.An.StateBefore(as), gf.Not(c.podHealthy(r.Fn, as.Pos(), as.Rhs[0])), "C05.3-first-unhealthy-is-unhealthy", name, as.Pos())
+		rhs := types.ExprString(as.Rhs[0])
+		if len(as.Rhs) == len(as.Lhs) {
+			for i, l := range as.Lhs {
+				if l == ast.Expr(lhs) {
+					rhs = types.ExprString(as.Rhs[i])
+				}
+			}
+		}
+		name := fmt.Sprintf("%s: %s = %s", r.FI.Obj.Name(), obj.Name(), rhs)
+		want := gf.Or(c.Want(r.Fn, as.End(), "$1 == nil", lhs), gf.Not(c.podHealthy(r.Fn, as.End(), lhs)))
+		c.Implies(r.An.StateAfter(as), want, "C05.3-first-unhealthy-is-unhealthy", name, as.Pos())
 		return true
 	})
 	c.Floor("C05.3-first-unhealthy-assignments", n, 2)
